@@ -148,7 +148,8 @@ func sizeLike(name string) bool {
 
 type synth struct {
 	r       *Rng
-	sibling int // length in octets of the last []byte argument synthesised (for `length` parameters)
+	sibling int    // length in octets of the last []byte argument synthesised (for `length` parameters)
+	ctx     string // lower-cased name of the function / method / struct type being filled (content hints)
 }
 
 func (s *synth) value(t reflect.Type, name string, depth int) (reflect.Value, bool) {
@@ -251,6 +252,10 @@ func (s *synth) value(t reflect.Type, name string, depth int) (reflect.Value, bo
 				n = 16
 			}
 			b := r.Bytes(n)
+			if sb, ok := semanticBytes(r, s.ctx+" "+ln); ok {
+				b = sb
+				n = len(b)
+			}
 			s.sibling = n
 			bv := reflect.MakeSlice(t, n, n)
 			reflect.Copy(bv, reflect.ValueOf(b))
@@ -339,6 +344,11 @@ func (s *synth) value(t reflect.Type, name string, depth int) (reflect.Value, bo
 // fillStruct fills the exported fields; unexported ones keep their zero value.
 func (s *synth) fillStruct(v reflect.Value, depth int) {
 	t := v.Type()
+	if t.Name() != "" {
+		saved := s.ctx
+		s.ctx = strings.ToLower(t.Name())
+		defer func() { s.ctx = saved }()
+	}
 	for i := 0; i < t.NumField(); i++ {
 		f := t.Field(i)
 		if f.PkgPath != "" && !f.Anonymous {
@@ -374,8 +384,11 @@ func (s *synth) fillStruct(v reflect.Value, depth int) {
 
 // SynthArgs builds the argument list of a function type. ok=false: a
 // parameter type cannot be synthesised (func, chan, non-empty interface).
-func SynthArgs(r *Rng, ft reflect.Type, names []string, skipFirst int) ([]reflect.Value, bool) {
+func SynthArgs(r *Rng, ft reflect.Type, names []string, skipFirst int, ctx ...string) ([]reflect.Value, bool) {
 	s := &synth{r: r, sibling: -1}
+	if len(ctx) > 0 {
+		s.ctx = strings.ToLower(ctx[0])
+	}
 	var out []reflect.Value
 	for i := skipFirst; i < ft.NumIn(); i++ {
 		name := ""
@@ -423,4 +436,169 @@ func directField(v reflect.Value, name string) reflect.Value {
 		}
 	}
 	return reflect.Value{}
+}
+
+// ---- semantically well-formed IE contents ----
+
+func bcd(digits string) []byte {
+	var out []byte
+	for i := 0; i < len(digits); i += 2 {
+		lo := digits[i] - '0'
+		hi := byte(0xf)
+		if i+1 < len(digits) {
+			hi = digits[i+1] - '0'
+		}
+		out = append(out, hi<<4|lo)
+	}
+	return out
+}
+
+func plmnBytes(r *Rng) []byte {
+	mcc, mnc := r.mcc(), r.mnc()
+	d3 := byte(0xf)
+	if len(mnc) == 3 {
+		d3 = mnc[2] - '0'
+	}
+	return []byte{(mcc[1]-'0')<<4 | (mcc[0] - '0'), d3<<4 | (mcc[2] - '0'), (mnc[1]-'0')<<4 | (mnc[0] - '0')}
+}
+
+// mobileIdentityBytes: the value part of a 5GS mobile identity (TS 24.501 9.11.3.4).
+func mobileIdentityBytes(r *Rng, want string) []byte {
+	kinds := []string{"suci", "suci", "nai", "guti", "imei", "imeisv", "tmsi", "none"}
+	k := kinds[r.Intn(len(kinds))]
+	switch {
+	case strings.Contains(want, "guti"):
+		k = "guti"
+	case strings.Contains(want, "pei"), strings.Contains(want, "imei"):
+		k = []string{"imei", "imeisv"}[r.Intn(2)]
+	case strings.Contains(want, "nai"):
+		k = "nai"
+	case strings.Contains(want, "suci"):
+		k = []string{"suci", "suci", "nai"}[r.Intn(3)]
+	case strings.Contains(want, "tmsi"):
+		k = "tmsi"
+	}
+	switch k {
+	case "suci":
+		b := []byte{0x01}
+		b = append(b, plmnBytes(r)...)
+		b = append(b, []byte{0xf0, 0xff}...) // routing indicator 0
+		if r.Chance(30) {
+			b[4], b[5] = byte(r.Intn(10))|0x10*byte(r.Intn(10)), 0xff
+		}
+		scheme := byte(0)
+		if r.Chance(30) {
+			scheme = byte(1 + r.Intn(2))
+		}
+		b = append(b, scheme, byte(r.Intn(4)))
+		if scheme == 0 {
+			b = append(b, bcd(r.digits(8+r.Intn(3)))...)
+		} else {
+			b = append(b, r.Bytes(20+r.Intn(30))...)
+		}
+		return b
+	case "nai":
+		return append([]byte{0x11}, []byte("type0.rid0.schid0.userid"+r.digits(6)+"@example.com")...)
+	case "guti":
+		b := []byte{0xf2}
+		b = append(b, plmnBytes(r)...)
+		b = append(b, r.Bytes(7)...)
+		return b
+	case "imei":
+		d := r.digits(15)
+		b := []byte{(d[0]-'0')<<4 | 0x08 | 0x03}
+		return append(b, bcd(d[1:])...)
+	case "imeisv":
+		d := r.digits(16)
+		b := []byte{(d[0]-'0')<<4 | 0x05}
+		return append(b, bcd(d[1:])...)
+	case "tmsi":
+		return append([]byte{0xf4}, r.Bytes(6)...)
+	}
+	return []byte{0x00}
+}
+
+func snssaiBytes(r *Rng) []byte {
+	switch r.Intn(4) {
+	case 0:
+		return []byte{1, byte(r.Intn(256))}
+	case 1:
+		return append([]byte{4, byte(r.Intn(256))}, r.Bytes(3)...)
+	case 2:
+		return append([]byte{5, byte(r.Intn(256))}, r.Bytes(4)...)
+	default:
+		return append([]byte{8, byte(r.Intn(256))}, r.Bytes(7)...)
+	}
+}
+
+func dnnBytes(r *Rng) []byte {
+	var b []byte
+	for _, l := range strings.Split(r.Pick([]string{"internet", "ims", "free5gc.org", "internet.mnc093.mcc208.gprs"}), ".") {
+		b = append(b, byte(len(l)))
+		b = append(b, l...)
+	}
+	return b
+}
+
+// semanticBytes returns well-formed contents for byte-string parameters and
+// IE buffers whose name (or whose function / type name) says what they hold.
+// ok=false: no opinion (the caller keeps its random bytes). Well-formed contents
+// are what drives the library past its length and type checks into the code
+// that real traffic executes; a third of the time random bytes are kept.
+func semanticBytes(r *Rng, hint string) ([]byte, bool) {
+	if r.Chance(30) {
+		return nil, false
+	}
+	has := func(ss ...string) bool {
+		for _, x := range ss {
+			if strings.Contains(hint, x) {
+				return true
+			}
+		}
+		return false
+	}
+	switch {
+	case has("mobileidentity", "suci", "guti", "peito", "imei", "tmsi", "naito", "additionalguti"):
+		return mobileIdentityBytes(r, hint), true
+	case has("plmn"):
+		return plmnBytes(r), true
+	case has("nssai"):
+		var b []byte
+		for i := 0; i < 1+r.Intn(4); i++ {
+			b = append(b, snssaiBytes(r)...)
+		}
+		if has("snssai") && !has("nssaito") {
+			return snssaiBytes(r)[1:], true
+		}
+		return b, true
+	case has("ladn"):
+		var b []byte
+		for i := 0; i < 1+r.Intn(3); i++ {
+			d := dnnBytes(r)
+			b = append(b, byte(len(d)))
+			b = append(b, d...)
+			if !has("indication", "tomodels") {
+				b = append(b, 7, 0x00)
+				b = append(b, plmnBytes(r)...)
+				b = append(b, r.Bytes(3)...)
+			}
+		}
+		return b, true
+	case has("dnn"):
+		return dnnBytes(r), true
+	case has("psi", "pdusessionstatus", "uplinkdatastatus", "allowedpdusessionstatus"):
+		return r.Bytes(2), true
+	case has("uesecuritycapability"):
+		return r.Bytes(2 + 2*r.Intn(4)), true
+	case has("upuack"):
+		return append([]byte{0x01}, r.Bytes(16)...), true
+	case has("tailist", "trackingarea"):
+		b := []byte{byte(r.Intn(3))}
+		b = append(b, plmnBytes(r)...)
+		for i := 0; i <= int(b[0]); i++ {
+			b = append(b, r.Bytes(3)...)
+		}
+		return b, true
+	}
+	return nil, false
 }
